@@ -102,3 +102,20 @@ def replay_case(prop, case, work):
     p = subprocess.run([exe, 'replay', prop, js], capture_output=True, text=True, timeout=600)
     log('replay: ' + p.stdout.strip()[-400:])
     return p.returncode != 0
+
+
+def make_bounded_engine(what, bound, quick_s, thorough_s):
+    """A native, BOUNDED stand-in for a function neither verifier reaches (stated bound, never counted as proved)."""
+    def run(prop, tier, seed, jobs, work):
+        budget = quick_s if tier == 'quick' else thorough_s
+        t0 = time.time()
+        r = cross(prop, seed, work, budget)
+        unit = {'bundle': 'native-bounded', 'unit': 'hunter cross %s' % prop, 'status': 'ok' if r['status'] == 'agree' else r['status'], 'wall_s': round(time.time() - t0, 1),
+                'backend': 'native execution of the real code against the rules oracle (replay/oracle.rs)', 'bounded': bound, 'what': what, 'stats': r.get('stdout', '')}
+        out = {'units': [unit], 'failures': [], 'undecided': [], 'samples': [], 'cmds': [],
+               'bounded': [{'harness': 'hunter cross %s' % prop, 'bound': bound + ' (seed %d, %ds)' % (seed, budget), 'status': unit['status'], 'wall_s': unit['wall_s'], 'what': what, 'stats': r.get('stdout', '')}]}
+        if r['status'] == 'disagree':
+            out['failures'].append({'bundle': 'native-bounded', 'unit': unit['unit'], 'obligation': 'bounded/%s: %s' % (prop, (r['case'].get('observed') or '')[:200]), 'detail': None,
+                                    'rendered': json.dumps(r['case']), 'case': dict(r['case'], found_by='bounded native stand-in')})
+        return out
+    return run
